@@ -342,6 +342,43 @@ def work_oddargs(job):
     return acc.result()
 
 
+def work_twin_order(job):
+    """run in a brand-new interpreter: the numbers 0 / 1 and their logical twins FALSE / TRUE (== and hash-equal in python)
+    converted one after the other, logicals first or numbers first -- the conversion of a number must not depend on what was
+    converted before it"""
+    order = job[0]
+    acc = Acc()
+    ev = feval.Evaluator()
+    nums = [1, 0, 1.0, 0.0, '1', '0']
+    logs = [True, False]
+    seq = logs + nums + logs if order == 'logicals-first' else nums + logs + nums
+    for b, (name, _) in BASES.items():
+        others = [n for bb, (n, _) in BASES.items() if bb != b]
+        forms = [f'=DEC2{name}(A1)', f'=DEC2{name}(A1,4)', f'={name}2DEC(A1)'] + [f'={name}2{o}(A1)' for o in others] + [f'={name}2{others[0]}(A1,3)']
+        for f in forms:
+            pad = 4 if ',4)' in f else 3 if ',3)' in f else 0
+            for x in seq:
+                o = ev.run(f, {'A1': x})
+                acc.add('evaluations')
+                acc.add('states')
+                acc.add('distinct_nontrivial')
+                case = dict(kind='twin', fn=f.split('(')[0][1:], formula=f, x=repr(x), order=order)
+                if o[0] != 'ok':
+                    acc.violation(dict(case, verdict='raised', exc=o[1]), f'{f} with A1={x!r} ({order}) raised {o[1]}')
+                    continue
+                if isinstance(x, bool):
+                    if not (isinstance(o[1], str) or isinstance(o[1], (int, float))):
+                        acc.violation(dict(case, verdict='wrong-type', observed=jsonable(o[1])), f'{f} with A1={x!r} = {o[1]!r}')
+                    continue
+                v = int(float(x))
+                want = v if '2DEC' in f else str(v).zfill(pad) if pad else str(v)
+                if not W.veq(o[1], want):
+                    acc.violation(dict(case, verdict='wrong-value', observed=jsonable(o[1]), expected=want),
+                                  f'{f} with A1={x!r} = {o[1]!r}, expected {want!r} (sequence {order}: {seq})')
+    acc.counts['transitions'] = acc.counts.get('evaluations', 0)
+    return acc.result()
+
+
 def run(ctx):
     jobs = []
     for b in BASES:
@@ -353,6 +390,7 @@ def run(ctx):
         jobs += [(b, k, 8, 5 if ctx.thorough else 4) for k in range(8)]
     ctx.pmap(work_strings, jobs, timeout=6000)
     ctx.pmap(work_oddargs, [(b,) for b in BASES], timeout=600)
+    ctx.fresh(work_twin_order, [('logicals-first',), ('numbers-first',)])
     ctx.sample(dict(n=-1, DEC2HEX='FFFFFFFFFF', HEX2DEC_back=-1))
     ctx.sample(dict(s='1000000000', BIN2DEC=-512))
     ctx.sample(dict(n=5, places=3, DEC2BIN='101', note='places 3 exactly fits'))
@@ -361,6 +399,10 @@ def run(ctx):
 
 def replay(case):
     ev = feval.Evaluator()
+    if case['kind'] == 'twin':
+        r = work_twin_order((case['order'],))
+        hits = [m for c, m in r['violations'] if c.get('formula') == case.get('formula') and c.get('x') == case.get('x')]
+        return bool(hits), '\n'.join(hits[:2]) or 'no violation (replayed in this process, not in a fresh one)'
     if case['kind'] == 'string':
         b = {'BIN': 2, 'OCT': 8, 'HEX': 16}[case['fn'][:3]]
         r = work_strings((b, 0, 1, 4))
